@@ -280,6 +280,10 @@ func cmdProps(args []string) {
 	case "C12":
 		rep.Rule = "specs from the dspec generator (valid per validate.Spec); identity: Compare(A,A), Compare(A, YAML re-serialisation of A with reversed parameter/enum/required/tag lists) through loads.Spec + DiffCommand; totality: Compare(A,B) for B = A with 1-4 edits or an unrelated spec, run in a child process (panic, fatal stack overflow and 20 s timeout observed). A case is non-trivial when A has at least one definition and one operation with parameters or a response schema; distinct by sha256 of the documents."
 		for i := 0; i < *n; i++ {
+			if pool.Crashes >= maxCrashes {
+				rep.Skipped["stopped-early-after-crashes"]++
+				break
+			}
 			g := &dspec.Gen{R: r.Fork(), Cov: rep.Coverage}
 			a, b, kind, edits := genPair(g, i)
 			aj, bj := a.JSON(), b.JSON()
@@ -349,6 +353,10 @@ func cmdProps(args []string) {
 	case "C14":
 		rep.Rule = "pairs (A,B) of valid specs: B = A with 1-4 elementary edits, or unrelated; observable: multiset of (url, method, response, field path, change code) of diff.Compare(A,B) vs the mirrored multiset of diff.Compare(B,A), and the two counts. Non-trivial when the report has at least one entry; distinct by sha256 of the pair."
 		for i := 0; i < *n; i++ {
+			if pool.Crashes >= maxCrashes {
+				rep.Skipped["stopped-early-after-crashes"]++
+				break
+			}
 			g := &dspec.Gen{R: r.Fork(), Cov: rep.Coverage}
 			a, b, kind, edits := genPair(g, i*8+3+i%5) // skip identity/unrelated-only slots mostly
 			aj, bj := a.JSON(), b.JSON()
@@ -425,7 +433,7 @@ func cmdProps(args []string) {
 			}
 			break
 		}
-		for i := 0; rep.Evaluations < *n && i < *n; i++ {
+		for i := 0; rep.Evaluations < *n && i < *n && pool.Crashes < maxCrashes; i++ {
 			g := &dspec.Gen{R: r.Fork(), Cov: map[string]int{}}
 			a := g.Spec()
 			aj := a.JSON()
